@@ -17,6 +17,7 @@ ops (one history = everything since the last `reset`):
   reset-dir <hex|absent> | stale-file <name28> | recommend <name28> <1|2|3> <mtime> | delete-article <aidhex>
     | editpost <name28> | crosspost <name28> | dir-dump                            (request layer on one board's .DIR)
   reset-pw <hex|absent> | pw <update|passwd|email> <uid> <hex> | pwq <whole|passwd|level> <uid>   (.PASSWDS accessors of cmbbs)
+  pwcu <uid> <userid13hex> <shm money> | pw-money <uid>=<money>,…   (session read-modify-write; concurrent money batch)
 Mutating ops answer `<result> <state>` with state = `absent` or `<length>:<fnv1a-64 of the bytes>`.
 -/
 
@@ -183,6 +184,28 @@ def stepC05 (st : St) (ws : List String) : St × String :=
           ({ st with pw := fs }, s!"{showOut out} {showState fs}")
       | none => (st, "bad-op")
     | _, _ => (st, "bad-op")
+  | ["pwcu", u, n, m] =>
+    match parseIntIn u (-2147483648) 2147483647, parseHex n, parseIntIn m (-2147483648) 2147483647 with
+    | some uid, some nm, some money =>
+      if nm.length ≠ Gen.RecFile.pwLenUserID then (st, "bad-op")
+      else
+        let (fs, _) := pwcuModify st.pw uid nm money
+        ({ st with pw := fs }, showState fs)
+    | _, _, _ => (st, "bad-op")
+  | ["pw-money", l] =>
+    let parts := (l.splitOn ",").map (fun p => p.splitOn "=")
+    let us : Option (List (Int × Int)) := parts.mapM fun p =>
+      match p with
+      | [a, b] => do
+        let u ← parseIntIn a (-2147483648) 2147483647
+        let v ← parseIntIn b (-2147483648) 2147483647
+        pure (u, v)
+      | _ => none
+    match us with
+    | some us =>
+      let fs := moneyBatch st.pw us
+      ({ st with pw := fs }, showState fs)
+    | none => (st, "bad-op")
   | ["pwq", what, u] =>
     match parseIntIn u (-2147483648) 2147483647 with
     | some uid =>
